@@ -64,18 +64,27 @@ class Outcome:
 
 @contextlib.contextmanager
 def time_limit(seconds=None):
+    """Bound on one call of the code under test. The bound is on the CPU time
+    of this process (ITIMER_PROF), so that a heavily loaded machine cannot
+    turn a slow but terminating call into a "non-termination"; the loops in
+    question are busy loops. A wall-clock alarm at 15x the bound catches a
+    call that blocks without consuming CPU."""
     seconds = CALL_TIME_LIMIT if seconds is None else seconds
 
     def handler(signum, frame):
         raise CallTimeout()
 
-    old = signal.signal(signal.SIGALRM, handler)
-    signal.setitimer(signal.ITIMER_REAL, seconds)
+    old_prof = signal.signal(signal.SIGPROF, handler)
+    old_alrm = signal.signal(signal.SIGALRM, handler)
+    signal.setitimer(signal.ITIMER_PROF, seconds)
+    signal.setitimer(signal.ITIMER_REAL, 15 * seconds)
     try:
         yield
     finally:
+        signal.setitimer(signal.ITIMER_PROF, 0)
         signal.setitimer(signal.ITIMER_REAL, 0)
-        signal.signal(signal.SIGALRM, old)
+        signal.signal(signal.SIGPROF, old_prof)
+        signal.signal(signal.SIGALRM, old_alrm)
 
 
 @contextlib.contextmanager
